@@ -21,7 +21,7 @@ ASSUMPTIONS = ["python stdlib ipaddress is a correct reference for numeric "
                "value, membership, masks and RFC 5952 text",
                "IPv4 text accepted by libc inet_aton but not dotted-quad is "
                "outside the must-reject set"]
-REQUIRED = ["prefix_lengths_out_of_range", "ip4", "ip4net", "ip4cidr", "ip4bad", "ip6", "ip6net", "ip6bad",
+REQUIRED = ["prefix_lengths_out_of_range", "compared_with_related_addresses_of_another_family", "ip4", "ip4net", "ip4cidr", "ip4bad", "ip6", "ip6net", "ip6bad",
             "eth", "ethbad", "dpid", "laws", "immut"]
 TIMEOUT = {"quick": 600, "thorough": 7200}
 
@@ -886,6 +886,30 @@ def case_laws (c, rep):
                            A.EthAddr("00:00:00:00:00:01"), A.IPAddr(0),
                            A.IPAddr6("::"), A.EthAddr(b"\0" * 6))
                if type(x) is not type(a)]
+    # ... nor is the address of another family that is *made from* this one
+    # (the IPv4-mapped and -compatible IPv6 forms, the same octets read as an
+    # address of another kind): one family's values are not the other's
+    try:
+      r = a.raw
+      relv = []
+      if kind == "ip4":
+        relv = [A.IPAddr6.from_raw(b"\0" * 10 + b"\xff\xff" + r),
+               A.IPAddr6.from_raw(b"\0" * 12 + r), A.IPAddr6.from_raw(r + b"\0" * 12),
+               A.EthAddr(r + b"\0\0"), A.EthAddr(b"\0\0" + r)]
+      elif kind == "ip6":
+        relv = [A.IPAddr(r[12:]), A.IPAddr(r[:4]), A.EthAddr(r[:6]), A.EthAddr(r[10:])]
+      else:
+        relv = [A.IPAddr(r[:4]), A.IPAddr(r[2:]), A.IPAddr6.from_raw(r + b"\0" * 10),
+               A.IPAddr6.from_raw(b"\0" * 10 + r)]
+      others += relv
+      rep.count("compared_with_related_addresses_of_another_family", len(relv))
+      for o in relv:
+        if (o == a) or not (o != a):
+          _fail(rep, "laws %s equals its counterpart in another family" % kind,
+                "%r == %r" % (o, a), c)
+    except Exception as e:
+      _fail(rep, "laws %s comparing with another family raises %s" %
+            (kind, type(e).__name__), repr(e), c)
     for other in others:
       try:
         if a == other or not (a != other):
